@@ -320,6 +320,69 @@ fn random_case(input: &[u8], st: &mut Stats, structured: bool) -> R {
     check_plan(&prelude, &p, st)
 }
 
+/// `bulk-prelude`: a context-dependent instruction (OpConstant / OpSpecConstant / OpSwitch, now and
+/// then any opcode) behind a prelude into which a run of 65 530 - 135 000 declarations is inserted -
+/// pairwise different scalar type shapes, one shape under many ids, typed values, or OpNop - so that
+/// the number of things declared before the instruction crosses 2^16 / 2^17. Its own types are
+/// declared before or after the run.
+fn sub_bulk(input: &[u8], st: &mut Stats) -> R {
+    let mut cs = Cs::new(input);
+    let g = golden();
+    let mut gen = Gen::new();
+    gen.next_id = 100;
+    let mut prelude = vec![];
+    type_prelude(&mut gen, &mut cs, &mut prelude, true);
+    let split = prelude.len();
+    type_prelude(&mut gen, &mut cs, &mut prelude, true);
+    for _ in 0..cs.below(3) {
+        if gen.typed_ids.is_empty() {
+            break;
+        }
+        let t = gen.typed_ids[cs.below(gen.typed_ids.len())];
+        let vid = gen.fresh_cs(&mut cs);
+        let p2 = Plan { opcode: 1, opname: "Undef", rtype: Some(t), rid: Some(vid), operands: vec![], body: vec![t, vid], shape: Shape::default() };
+        gen.track(&p2);
+        prelude.push(p2);
+    }
+    let n = match cs.below(4) {
+        0 => 65_530 + cs.below(16),
+        1 => 65_535 + cs.below(4),
+        2 => 131_066 + cs.below(12),
+        _ => 65_537 + cs.below(70_000),
+    };
+    let kind = cs.below(4);
+    let base: u32 = [1_000_000u32, 30_000, 65_000][cs.below(3)];
+    let t_any = gen.typed_ids.first().copied().unwrap_or(99);
+    let run: Vec<Plan> = (0..n as u32)
+        .map(|i| {
+            let id = base + i;
+            match kind {
+                0 => Plan { opcode: OP_TYPE_INT, opname: "TypeInt", rtype: None, rid: Some(id), operands: vec![dr::Operand::LiteralBit32(100 + i), dr::Operand::LiteralBit32(0)], body: vec![id, 100 + i, 0], shape: Shape::default() },
+                1 => Plan { opcode: OP_TYPE_INT, opname: "TypeInt", rtype: None, rid: Some(id), operands: vec![dr::Operand::LiteralBit32(32), dr::Operand::LiteralBit32(1)], body: vec![id, 32, 1], shape: Shape::default() },
+                2 => Plan { opcode: 1, opname: "Undef", rtype: Some(t_any), rid: Some(id), operands: vec![], body: vec![t_any, id], shape: Shape::default() },
+                _ => Plan { opcode: 0, opname: "Nop", rtype: None, rid: None, operands: vec![], body: vec![], shape: Shape::default() },
+            }
+        })
+        .collect();
+    let at = [0, split, prelude.len()][cs.below(3)];
+    let tail = prelude.split_off(at);
+    prelude.extend(run);
+    prelude.extend(tail);
+    let gi = match cs.below(8) {
+        0..=2 => crate::layout::gi_by_name("Constant"),
+        3..=4 => crate::layout::gi_by_name("Switch"),
+        5 => crate::layout::gi_by_name("SpecConstant"),
+        6 => crate::layout::gi_by_name("SpecConstantOp"),
+        _ => &g.core[cs.below(g.core.len())],
+    };
+    let Some(p) = gen.plan(&mut cs, gi) else {
+        st.count("skipped_no_conforming_instance");
+        return Ok(());
+    };
+    st.count("bulk_preludes");
+    check_plan(&prelude, &p, st)
+}
+
 /// as `random`, with result ids (type ids, typed values) occasionally 0 / 0x7fffffff /
 /// 0x80000000 / 0xffffffff
 fn sub_edge_ids(input: &[u8], st: &mut Stats) -> R {
@@ -408,6 +471,10 @@ pub const SUBS: &[Sub] = &[
         name: "max-length",
         f: sub_max_length,
     },
+    Sub {
+        name: "bulk-prelude",
+        f: sub_bulk,
+    },
 ];
 
 pub fn run(ctx: &Ctx) {
@@ -423,6 +490,7 @@ pub fn run(ctx: &Ctx) {
     drive_random(ctx, &SUBS[2], ctx.n(15_000, 10_000_000), 256);
     drive_random(ctx, &SUBS[3], ctx.n(15_000, 10_000_000), 320);
     drive_enum(ctx, &SUBS[4], 18);
+    drive_random_costly(ctx, &SUBS[5], ctx.n(16, 4_000), 300);
 }
 
 pub fn finish(ctx: &Ctx) -> i32 {
